@@ -4,13 +4,19 @@ META = {
         "file are recording stubs (macro substitution in the harness), init_l1_table/init_l2_cache cut (allocation only)",
         "ext2fs_llseek/read/write are byte-array file models; reads deliver any non-empty part of a request",
         "filesystems of 1..2^32 blocks, block size 1k/2k/4k/64k (cluster_bits 10/11/12/16), little-endian host",
-        "l2item: free L2 tables are zeroed (established by init_l2_cache/put_used_table), 4 L1 slots, cache of one used + one free table "
-        "(flush_l2_cache not reached)",
+        "l2item: free L2 tables are zeroed (asserted as post-condition of flush/put_used_table in l2cache), 4 L1 slots, cache of one used + "
+        "one free table",
+        "l2cache: scaled cluster_bits 6; used-list tail ->next points at the free head (get_free_table never clears it: reachable states only)",
+        "rawout/discover: fresh regular output file; library callees (bitmap test/mark, io read, inode scan, block iterator, "
+        "quota_type2inum, ftruncate64, llseek, write) are recording stubs; mark_table_blocks and the two output writers cut in discover",
     ],
     "outside": [
-        "which blocks count as metadata: mark_table_blocks, process_dir_block, process_file_block, write_raw_image_file (the substance of C19)",
-        "the raw writer output_meta_data_blocks (sparse skipping, -ra, move mode), scramble, install_image",
-        "output_qcow2_meta_data_blocks' sequencing of update_refcount/add_l2_item/generic_write, flush_l2_cache ordering and file offsets, "
+        "which blocks count as metadata beyond one inode's step: mark_table_blocks (superblock, descriptors, bitmaps, inode tables, MMP), "
+        "the real inode scan and the real block iterator (what ext2fs_block_iterate3 reports for extent/indirect trees), backup "
+        "superblock option; ext2fs_inode_has_valid_blocks2 is used as the oracle for 'has valid blocks'",
+        "the raw writer's move mode (-O/-o/-p), progress output, -n, stdout output, check_buf (-c), scramble, install_image; block "
+        "content in rawout is a tag (check_zero_block and generic_write cut there)",
+        "output_qcow2_meta_data_blocks' sequencing of update_refcount/add_l2_item/generic_write (flush_l2_cache itself: harness l2cache, scaled cluster), "
         "update_refcount/sync_refcount themselves (only the capacity they index into is checked)",
         "qcow2_write_raw_image's table walk (L1/L2 loop, offset > image_size skip, final size extension) beyond header validation and copy_data",
         "source filesystem never modified (C13), e2fsck/dumpe2fs equality on the image",
@@ -28,6 +34,27 @@ HARNESSES = [
     dict(name="l2item", src="l2item.c", funcs=["add_l2_item", "get_free_table"],
          configs=[{"CB": 10}, {"CB": 7}], unwind=4, unwindset=["main.%d:130" % i for i in range(10)] + ["ref_be64.0:9"],
          backends=["default", "kissat"], bound="cluster_bits 10 (128-entry L2 tables; 7 = scaled, 16 entries), 4 L1 slots, any block, any table content and offsets < 2^62"),
+    dict(name="l2cache", src="l2cache.c", funcs=["flush_l2_cache", "put_used_table", "get_free_table", "generic_write", "seek_set", "seek_relative"],
+         configs=[{"OP": 2, "NU": 2, "NF": 0},      # first: reaches every function of funcs= (get -> flush -> put)
+                  {"OP": 1, "NU": 2, "NF": 1}, {"OP": 1, "NU": 3, "NF": 0}, {"OP": 1, "NU": 1, "NF": 0}, {"OP": 2, "NU": 1, "NF": 1}],
+         unwind=5, unwindset=["main.%d:66" % i for i in range(14)] + ["write.0:66", "flush_l2_cache.0:5", "put_l2_cache.0:5"],
+         backends=["default", "kissat"],
+         bound="scaled cluster_bits 6 (64-byte cluster, 8 entries), 1..3 tables in use with symbolic content/offset/L1 slot, 0..1 free"),
+    dict(name="rawout", src="rawout.c", funcs=["output_meta_data_blocks", "check_block", "seek_relative"],
+         cut_statics={"misc/e2image.c": ["check_zero_block", "generic_write"]}, extra_src=["lib/ext2fs/blknum.c"],
+         configs=[{"NBLK": 18}, {"NBLK": 18, "FLAGS": 0}, {"NBLK": 34}],
+         unwind=4, unwindset=["main.0:36", "main.1:36", "main.2:36", "generic_write.0:36", "output_meta_data_blocks.0:36", "output_meta_data_blocks.1:36", "output_meta_data_blocks.2:36"],
+         backends=["default", "kissat"],
+         bound="18 and 34 blocks of 64 KiB, every subset imaged, every subset all-zero, s_first_data_block 0/1, ftruncate succeeds or fails; CHECK_ZERO flag on/off per query"),
+    dict(name="discover", src="discover.c",
+         funcs=["write_raw_image_file", "process_dir_block", "process_file_block", "use_inode_shortcuts", "meta_read_inode",
+                "ext2fs_inode_has_valid_blocks2", "ext2fs_file_acl_block"],
+         cut_statics={"misc/e2image.c": ["mark_table_blocks", "output_meta_data_blocks", "output_qcow2_meta_data_blocks"]},
+         extra_src=["lib/ext2fs/blknum.c", "lib/ext2fs/valid_blk.c"],
+         configs=[{"ALL_DATA": 0}, {"ALL_DATA": 1}],
+         unwind=4, unwindset=["main.%d:129" % i for i in range(4)] + ["write_raw_image_file.0:4", "write_raw_image_file.1:4", "write_raw_image_file.2:4", "meta_get_blocks.0:16"],
+         backends=["default", "kissat"],
+         bound="one inode: all 128 bytes and the inode number symbolic; journal/project-quota/orphan inode numbers, 64bit feature, two reported (block, blockcnt) pairs symbolic; -a on/off per query"),
     dict(name="geom", src="geom.c", funcs=["initialize_qcow2_image", "init_refcount", "align_offset", "get_bits_from_size"],
          cut_statics=CUT, extra_src=["lib/ext2fs/blknum.c"],
          configs=[{"CB": cb} for cb in (10, 11, 12, 16)] + [{"CB": 10, "CHECK_CAPACITY": 1, "MAXLOG": 17}] + [{"CB": cb, "CHECK_CAPACITY": k} for k in (1, 2) for cb in (10, 11, 12, 16)],
@@ -38,8 +65,11 @@ MANIFEST = {
     "text": "Sizing and index arithmetic of the qcow2 writer and reader only: header fields, L1 size, region order/alignment and "
             "refcount-table capacity of initialize_qcow2_image/init_refcount for every filesystem size; add_l2_item's slot "
             "against the format's (and the reader's) index formula; header acceptance of qcow2_read_header and "
-            "qcow2_write_raw_image; byte placement of qcow2_copy_data. Which blocks are imaged, the writers' sequencing and the "
-            "reader's table walk are outside.",
+            "qcow2_write_raw_image; byte placement of qcow2_copy_data; the L2 cache recycle step (flush/put/get: every table "
+            "written once at its offset, recycled tables zero over the whole cluster); the raw writer's sparse accounting on 18/34 "
+            "blocks of 64 KiB (final length, each imaged non-zero block at its offset, nothing else); one inode's metadata discovery "
+            "step of write_raw_image_file (xattr block of every in-use inode, mapped blocks iff valid, right callback, count). "
+            "Table-block discovery, the real block iterator, the qcow2 writer's sequencing and the reader's table walk are outside.",
     "note": "Trusted: CBMC's C semantics, recording allocation stubs, byte-array file models, the harness's restatement of the "
             "qcow2 format. Failing on the unchanged tree: geom CB=10 CHECK_CAPACITY (refcount table too small for 1 KiB-block "
             "images near 64 MiB, unchecked index in update_refcount) and copy_data PARTIAL_WRITE (retry writes c1 instead of c bytes).",
